@@ -95,6 +95,23 @@ async fn name_cell(addr: SocketAddr, set: Arc<CertSet>, role: String, ns: String
     }
 }
 
+/// A violating name so long that its registration frame only just fits the frame limit: the
+/// refusal (whatever the server puts into it) must still arrive.
+async fn huge_name_cell(addr: SocketAddr, set: Arc<CertSet>, role: String, total: usize) -> Result<String, Fail> {
+    let class = format!("role={role}:huge-name");
+    let ns = format!("!{}", "a".repeat(total - 1 - 5));
+    let tp = "topic".to_string();
+    let raw = RawConn::connect(addr, &set.ca, Some(&set.client)).await.map_err(|e| fail("setup", "connect", e.to_string()))?;
+    let r = raw.register(register_frame(&role, TopicName::_create_unchecked(&ns, &tp))).await;
+    match r {
+        Ok((_, Some(Frame::Error(e)))) if e.code == INVALID_TOPIC_NAME => Ok("refused-invalid-topic".into()),
+        Ok((_, Some(Frame::Error(e)))) => Err(fail("wrong-error-code", &class, format!("a violating name of {total} bytes was refused with code {} instead of the invalid-topic code", e.code))),
+        Ok((_, Some(Frame::Ok))) => Err(fail("server-accepted-invalid-name", &class, format!("a violating name of {total} bytes was accepted"))),
+        Ok((_, other)) => Err(fail("unexpected-answer", &class, format!("a violating name of {total} bytes (namespace + topic; the registration frame just fits the 1 MiB limit) as {role}: the server answered {other:?} instead of the invalid-topic error"))),
+        Err(e) => Err(fail("unanswered", &class, format!("a violating name of {total} bytes as {role}: {e}"))),
+    }
+}
+
 /// traffic on `a` must reach a's subscriber and never b's
 async fn isolation_cell(addr: SocketAddr, set: Arc<CertSet>, a: (String, String), b: (String, String)) -> Result<String, Fail> {
     let class = "isolation".to_string();
@@ -208,6 +225,14 @@ fn cells() -> Vec<Value> {
             id += 1;
         }
     }
+    // violating names whose registration frame is at, or a few bytes below, the frame limit
+    // (replier/requestor frames are 16 bytes larger than the name, publisher/subscriber ones 32)
+    for (role, over) in [("requestor", 16usize), ("replier", 16), ("subscriber", 32), ("publisher", 32)] {
+        for slack in [0usize, 1, 10, 17, 40, 100] {
+            v.push(json!({"cell": id, "family": "huge-name", "role": role, "name_bytes": 1024 * 1024 - over - slack}));
+            id += 1;
+        }
+    }
     // every pair uses names of its own: cells run concurrently on one server
     let pairs = [
         (("nsa", "topic"), ("nsa", "topic2")),
@@ -245,6 +270,10 @@ pub async fn run(tier: &str, replaying: bool) -> ! {
                 let role = c["role"].as_str().unwrap();
                 let addr = if role == "replier" || role == "requestor" { addr_rr } else { addr };
                 name_cell(addr, set, c["role"].as_str().unwrap().into(), c["namespace"].as_str().unwrap().into(), c["topic"].as_str().unwrap().into()).await
+            } else if c["family"] == "huge-name" {
+                let role = c["role"].as_str().unwrap();
+                let addr = if role == "replier" || role == "requestor" { addr_rr } else { addr };
+                huge_name_cell(addr, set, role.into(), c["name_bytes"].as_u64().unwrap() as usize).await
             } else {
                 let g = |k: &str| (c[k][0].as_str().unwrap().to_string(), c[k][1].as_str().unwrap().to_string());
                 isolation_cell(addr, set, g("a"), g("b")).await
@@ -256,7 +285,7 @@ pub async fn run(tier: &str, replaying: bool) -> ! {
     finish(
         rep,
         outs,
-        "name: 34 (namespace, topic) pairs at the length / character-class / reserved-word boundaries, built with _create_unchecked and sent on the wire by a raw peer as subscriber and requestor registrations (every fourth also as publisher and replier): the first frame back must be Ok iff the reference grammar accepts and an invalid-topic error otherwise (either for non-ASCII alphanumerics); isolation: 11 pairs of distinct valid names sharing prefixes / suffixes / case / separators, or coinciding once their components are joined by a legal character, by nothing, or swapped, each with its own raw publisher and subscriber: each subscriber receives exactly its own topic's 5 messages in order and nothing published on the other name",
+        "name: 34 (namespace, topic) pairs at the length / character-class / reserved-word boundaries, built with _create_unchecked and sent on the wire by a raw peer as subscriber and requestor registrations (every fourth also as publisher and replier): the first frame back must be Ok iff the reference grammar accepts and an invalid-topic error otherwise (either for non-ASCII alphanumerics); huge names: violating names of up to 1 MiB - 16 bytes whose registration frame is at or a few bytes under the frame limit, in all four roles: the invalid-topic error must still arrive; isolation: 11 pairs of distinct valid names sharing prefixes / suffixes / case / separators, or coinciding once their components are joined by a legal character, by nothing, or swapped, each with its own raw publisher and subscriber: each subscriber receives exactly its own topic's 5 messages in order and nothing published on the other name",
         "complements the bounded-exhaustive grammar enumeration of engine W with the server-side enforcement path and the topic map lookup",
         json!({}),
         replaying,
